@@ -12,12 +12,36 @@ NL(t) == 64 \div NB(t)
 Lane(row, t, i) == SubSeq(row, i * NB(t) + 1, (i + 1) * NB(t))
 \* two results of the same function on the same value may differ in last-place bits only (C13 mixed vs broadcast, C17 scalar vs
 \* batch): ordinal distance <= 2 B + 1 (B2 + 1 half ulps, rounded up) and the same special class
-CloseOK(fn, f, y1, y2) ==
+\* magnitude below 16 * MIN (the graceful-underflow zone of C10/C11)
+Tiny(f, y) == LET d == Dec(f, y) IN d.cls \in {"zero", "sub"} \/ (d.cls = "normal" /\ d.ef <= 4)
+CloseOK(fn, f, x, y1, y2) ==
   LET c1 == Class(f, y1)  c2 == Class(f, y2) IN
-  IF c1 = "nan" \/ c2 = "nan" THEN c1 = c2
+  IF Class(f, x) \in {"sub", "inf", "nan"} THEN TRUE        \* C10/C11 bound the error for finite non-subnormal arguments only (specials: C12)
+  ELSE IF c1 = "nan" \/ c2 = "nan" THEN c1 = c2
+  ELSE IF Tiny(f, y1) /\ Tiny(f, y2) THEN TRUE             \* both in the underflow zone: graceful degradation, not an ulp bound
   ELSE IF c1 = "inf" \/ c2 = "inf" THEN y1 = y2
-  ELSE IF c1 = "zero" /\ c2 = "zero" THEN TRUE
+  ELSE IF fn = "lgamma" /\ Dec(f, y1).ef < Bias(f) /\ Dec(f, y2).ef < Bias(f)
+       THEN \* lgamma's bound is in ulps of max(|result|, 1): below 1 compare |y1 - y2| with (2B+1) half-ulps of 1.0 = (2B+1) * 2^-p
+            LET d1 == Dec(f, y1)  d2 == Dec(f, y2)
+                diff == IF d1.m = <<>> THEN [m |-> d2.m, e |-> d2.e, zero |-> d2.m = <<>>]
+                        ELSE IF d2.m = <<>> THEN [m |-> d1.m, e |-> d1.e, zero |-> FALSE]
+                        ELSE AddExactP(100000, d1.s, d1.m, d1.e, 1 - d2.s, d2.m, d2.e)
+            IN diff.zero \/ CmpScaled(diff.m, diff.e, FromInt(B2(fn, f) + 1), -Prec(f)) <= 0
   ELSE BLe(OrdinalDistance(f, y1, y2), FromInt(B2(fn, f) + 1))
+(***************************************************************************)
+(* Known deviation (known_findings.json, id lgamma-tiny-negative): for a     *)
+(* negative argument so small that q * sin(pi q) = pi q^2 underflows, the      *)
+(* reflection formula of lgamma (xsimd_generic_math.hpp, negative() /          *)
+(* large_negative()) takes log(0) and returns +inf although the exact value    *)
+(* (about -log|x|) is an ordinary number.  A rejected lgamma lane is classified  *)
+(* as this finding only if the argument is in that range AND the batch result   *)
+(* is exactly +inf.                                                             *)
+(***************************************************************************)
+LgammaTinyNegative(f, x, r) ==
+  LET d == Dec(f, x) IN d.s = 1 /\ d.cls = "normal" /\ d.ef < Bias(f) - (IF f.M = 23 THEN 60 ELSE 508) /\ r = EncInf(f, 0)
+KnownOf(e, bad) == IF e.op = "lgamma" /\ e.k \in {"sv", "mix", "acc"} /\ bad # {} /\ bad # {-1}
+                      /\ \A i \in bad : LgammaTinyNegative(Fm(e.t), Lane(e.a, e.t, i), Lane(e.r, e.t, i))
+                   THEN "lgamma-tiny-negative" ELSE "-"
 Bad(e) ==
   LET f == Fm(e.t) IN
   CASE e.k = "sp1"  -> {i \in 0 .. NL(e.t) - 1 : ~SpecialOK(e.op, f, Lane(e.a, e.t, i), Lane(e.r, e.t, i))}
@@ -25,12 +49,12 @@ Bad(e) ==
     [] e.k = "pair" -> {i \in 0 .. NL(e.t) - 1 : ~ParityOK(e.op, f, Lane(e.r, e.t, i), Lane(e.r2, e.t, i))}
     [] e.k = "same" -> {i \in 0 .. NL(e.t) - 1 : ~SameOK(f, Lane(e.r, e.t, i), Lane(e.r2, e.t, i))}
     [] e.k = "mix"  -> {i \in 0 .. NL(e.t) - 1 : ~(IF e.exact = 1 THEN SameOK(f, Lane(e.r, e.t, i), Lane(e.r2, e.t, i))
-                                                    ELSE CloseOK(e.op, f, Lane(e.r, e.t, i), Lane(e.r2, e.t, i)))}
+                                                    ELSE CloseOK(e.op, f, Lane(e.a, e.t, i), Lane(e.r, e.t, i), Lane(e.r2, e.t, i)))}
     [] e.k = "bc"   -> {i \in 0 .. NL(e.t) - 1 : ~SameOK(f, Lane(e.r, e.t, 0), Lane(e.r, e.t, i))}   \* broadcasting one value gives identical lanes (any NaN for a NaN)
-    [] e.k = "sv"   -> {i \in 0 .. NL(e.t) - 1 : ~CloseOK(e.op, f, Lane(e.r, e.t, i), Lane(e.r2, e.t, i))}
+    [] e.k = "sv"   -> {i \in 0 .. NL(e.t) - 1 : ~CloseOK(e.op, f, Lane(e.a, e.t, i), Lane(e.r, e.t, i), Lane(e.r2, e.t, i))}
     [] OTHER -> {-1}
 RejectLine(e, bad) == "REJECT id=" \o ToString(e.id) \o " k=" \o e.k \o " op=" \o e.op \o " t=" \o e.t
-                      \o " lanes=" \o ToString(bad) \o " archs=" \o ToString(e.archs) \o " known=-"
+                      \o " lanes=" \o ToString(bad) \o " archs=" \o ToString(e.archs) \o " known=" \o KnownOf(e, bad)
                       \o (IF bad = {} \/ bad = {-1} THEN "" ELSE LET i == CHOOSE j \in bad : \A k \in bad : j <= k IN
                             " lane=" \o ToString(i) \o " x=" \o (IF "a" \in DOMAIN e THEN ToString(Lane(e.a, e.t, i)) ELSE "-")
                             \o " y=" \o (IF "b" \in DOMAIN e THEN ToString(Lane(e.b, e.t, i)) ELSE "-")
